@@ -1158,6 +1158,22 @@ def sx_float(x=0.0):
     return float(x)
 
 
+class sx_codecs(object):
+    import codecs as _real
+
+    @staticmethod
+    def encode(data, enc='utf-8', *a):
+        if isinstance(data, SymBytes):
+            data = bytes_concretize(data)
+        return sx_codecs._real.encode(data, enc, *a)
+
+    @staticmethod
+    def decode(data, enc='utf-8', *a):
+        if isinstance(data, SymBytes):
+            data = bytes_concretize(data)
+        return sx_codecs._real.decode(data, enc, *a)
+
+
 SHIMS = dict(isinstance=sx_isinstance, int=sx_int, bytes=sx_bytes, bytearray=sx_bytearray,
              abs=sx_abs, min=sx_min, max=sx_max, sum=sx_sum, divmod=sx_divmod, range=sx_range,
              hex=sx_hex, bin=sx_bin, chr=sx_chr, ord=sx_ord, float=sx_float,
